@@ -138,7 +138,7 @@ func verifC12Check(in *verifSHAInput, r *verifSHAResult, report func(key, msg st
 
 func TestVerifC12_Conservation(t *testing.T) {
 	kit.Run(t, "C12", kit.Budget{Quick: 15000, Thorough: 200000},
-		"SG: 1-4 shards + meta, NodesShard/NodesMeta 1-6, eligible 0-8 and waiting 0-6 per shard (mostly >= minimum), 0-5 new, unique 8-byte keys, two leaving lists drawn from eligible+waiting (none / few / one whole shard / everybody) with duplicates within and across lists and unknown keys, flags on/off by epoch, NodesToShufflePerShard 0-6, 1-32 random bytes; oracle = multiset conservation over Eligible+Waiting+Leaving, Leaving subset of old eligible+waiting, refused leavers kept; non-trivial = (>=1 honoured and >=1 refused request) or a duplicate/unknown key in the leaving lists; distinct by (sizes, flags, leaving shape)",
+		"SG: 1-4 shards + meta, NodesShard/NodesMeta 1-6, eligible 0-8 and waiting 0-6 per shard (mostly >= minimum), 0-5 new, unique 8-byte keys, two leaving lists drawn from eligible+waiting (none / few / one whole shard / everybody) with duplicates within and across lists and unknown keys, flags on/off by epoch, NodesToShufflePerShard 0-6, 1-32 random bytes, adaptivity on in 1/3 of the cases (node counts then cross the split and merge thresholds of computeNewShards, whose branches are stubs that must keep the configuration); oracle = multiset conservation over Eligible+Waiting+Leaving, Leaving subset of old eligible+waiting, refused leavers kept; non-trivial = (>=1 honoured and >=1 refused request) or a duplicate/unknown key in the leaving lists; distinct by (sizes, flags, leaving shape)",
 		func(rt *rapid.T, c *kit.Case) {
 			in := verifSHAGen(rt, verifSHAGeneral)
 			sh, err := in.shuffler()
@@ -174,6 +174,15 @@ func TestVerifC12_Conservation(t *testing.T) {
 			if in.balanceActive() {
 				c.Class("balance:on")
 			}
+			if in.args.Adaptivity {
+				c.Class("adaptivity:on")
+				switch in.reshard() {
+				case 1:
+					c.Class("adaptivity:split-branch")
+				case -1:
+					c.Class("adaptivity:merge-branch")
+				}
+			}
 			if in.unknownLeaving > 0 {
 				c.Class("leaving:unknown-key")
 			}
@@ -206,6 +215,13 @@ func TestVerifC12_Regress(t *testing.T) {
 		verifSHAFixed(2, 2, [][2]int{{2, 1}, {2, 1}, {2, 1}}, 1, []int{0, 0, 99}, []int{0, 3, 98, 98}, 0, 1, true),
 		verifSHAFixed(2, 2, [][2]int{{2, 1}, {2, 1}, {2, 1}}, 2, []int{0, 1, 2}, []int{3, 4, 5, 6, 7, 8}, 5, 1, true),
 		verifSHAFixed(3, 2, [][2]int{{3, 3}, {2, 1}}, 3, []int{5, 4, 3, 2, 1, 0}, []int{8, 7, 6}, 0, 0, false),
+	}
+	// the same inputs with adaptivity on: case 3 crosses the split threshold (21 nodes > 3*2+2), case 5 (all of a
+	// shard asked to leave) the merge threshold
+	for _, in := range cases[:5] {
+		cp := *in
+		cp.args.Adaptivity = true
+		cases = append(cases, &cp)
 	}
 	for i, in := range cases {
 		sh, err := in.shuffler()
